@@ -69,6 +69,12 @@ def spell_int(ty, value, style, env, tag):
         if n < 0 or n > hi:
             return lit_int(value)
         return bnot(lit(str(n))) if style == "notlit" else bnot(const("C%s" % tag, n))
+    if style in ("hex", "oct", "bin"):
+        body = {"hex": "0x%X", "oct": "0o%o", "bin": "0b%s"}[style] % (abs(value) if style != "bin" else bin(abs(value))[2:])
+        if style == "bin" and len(body) > 8:
+            body = body[:-4] + "_" + body[-4:]
+        e = lit(body)
+        return neg(e) if value < 0 else e
     if style == "userassoc":
         # a user type's associated constant that merely shares its name with the inner type's limit
         nm = "Lim%s" % tag.capitalize()
@@ -136,7 +142,7 @@ def lit_int(value):
 
 
 INT_STYLES = ["lit", "const", "negconst", "paren", "arith", "shift", "minmax", "call", "lit_us",
-              "parenconst", "mulsub", "bitor", "notlit", "notconst", "userassoc", "usermod"]
+              "parenconst", "mulsub", "bitor", "notlit", "notconst", "userassoc", "usermod", "hex", "oct", "bin"]
 
 
 # ---------------------------------------------------------------- integer guards
@@ -455,7 +461,7 @@ STR_VAL_SETS = [
 REGEX_LITS = ["^[a-z]+$", "@", "^.{2,4}$"]
 STR_DERIVES = ["Debug", "Clone", "PartialEq", "Eq", "PartialOrd", "Ord", "Hash", "FromStr", "AsRef",
                "Into", "TryFrom", "Borrow", "Display", "Deref"]
-USIZE_STYLES = ["lit", "const", "paren", "arith", "call", "parenconst", "shift", "userassoc", "usermod"]
+USIZE_STYLES = ["lit", "const", "paren", "arith", "call", "parenconst", "shift", "userassoc", "usermod", "hex", "bin", "oct"]
 
 
 def gen_str_guards(rng, n=160, start=0):
@@ -588,6 +594,13 @@ def gen_any_guards(rng, n=32, start=0):
             d = Decl("a%d" % (start + len(decls)), "Vec<i32>", attr(blocks), tags={"guard", "any"})
         d.default_arg = default_arg
         decls.append(d)
+    for gi, (form, bounds_) in enumerate((("p", []), ("c00", ["Ord", "Clone"]), ("c01", []))):
+        d = Decl("a%d" % (start + len(decls)), "Vec<T>", attr([block("sanitize", [[tid("with"), EQ, tfn(0, form, "s")]]), derive_block([t_ for t_ in ANY_DERIVES if t_ != "TryFrom"] + ["From"])]),
+                 tags={"guard", "any", "generic"}, name="W", generics=[("T", bounds_)])
+        d.inst = "<i32>"
+        d.inner_concrete = "Vec<i32>"
+        d.default_arg = None
+        decls.append(d)
     return decls
 
 
@@ -678,6 +691,23 @@ def gen_perm_decls(rng, tier):
         d.default_arg = None
         decls.append(d)
         n += 1
+    for eq in (3, 1, 4):
+        for order in (("min", "max"), ("max", "min"), ("not_empty", "min", "max"), ("max", "not_empty", "min"), ("min", "P", "max")):
+            items = []
+            for s in order:
+                if s == "min":
+                    items.append([tid("len_char_min"), EQ, tx(lit(str(eq)))])
+                elif s == "max":
+                    items.append([tid("len_char_max"), EQ, tx(lit(str(eq)))])
+                elif s == "P":
+                    items.append([tid("predicate"), EQ, tfn(0, "p", "p")])
+                else:
+                    items.append([tid("not_empty")])
+            d = Decl("ps%d" % n, "String", attr([block("validate", items), derive_block(["Debug", "Clone", "PartialEq"])]), tags={"perm", "str"})
+            d.bounds = [eq, eq]
+            d.default_arg = None
+            decls.append(d)
+            n += 1
     for mn, mx in ((5, 2), (4, 1), (9, 3), (3, 3), (2, 6)):
         for order in (("min", "max"), ("max", "min"), ("not_empty", "min", "max"), ("max", "not_empty", "min")):
             env = [("MN", "usize", mn, "const MN: usize = %d;" % mn), ("MX", "usize", mx, "const MX: usize = %d;" % mx)]
